@@ -9,7 +9,7 @@ pub fn prop() -> Prop {
     Prop {
         id: "C02",
         level: "exploration",
-        rule: "decision-table enumeration (length class x suppression x keep_bit x keep_last x requested_samples x sample count x content x baseline), byte sweeps of every header byte, and random single/multi-field mutations of accepted packets; each case is decoded by the library and by an independent reference decoder, accepted packets are compared accessor by accessor and re-encoded. Non-trivial = distinct (hash of bytes) inputs that pass type/version/module/channel and have length 16 or >= 36, i.e. reach the consistency ladder. Also: sample counts 32 766..131 072 against 16-bit requested_samples values; exact negative means; every decode repeated from an odd address (alignment independence); history independence (near-miss MACs right after a successful decode, fresh-thread comparison). Round 5: every requested_samples value 0..=65535 against waveforms of 64..5 000 samples, suppression off / on; header / footer fields at source constants jointly with one more bit / byte. Round 7: every keep_last 34..=4095 with exactly enough samples, one too few and one more, suppression off / on.",
+        rule: "decision-table enumeration (length class x suppression x keep_bit x keep_last x requested_samples x sample count x content x baseline), byte sweeps of every header byte, and random single/multi-field mutations of accepted packets; each case is decoded by the library and by an independent reference decoder, accepted packets are compared accessor by accessor and re-encoded. Non-trivial = distinct (hash of bytes) inputs that pass type/version/module/channel and have length 16 or >= 36, i.e. reach the consistency ladder. Also: sample counts 32 766..131 072 against 16-bit requested_samples values; exact negative means; every decode repeated from an odd address (alignment independence); history independence (near-miss MACs right after a successful decode, fresh-thread comparison). Round 5: every requested_samples value 0..=65535 against waveforms of 64..5 000 samples, suppression off / on; header / footer fields at source constants jointly with one more bit / byte. Round 7: every keep_last 34..=4095 with exactly enough samples, one too few and one more, suppression off / on. Round 8: slices of 0..=40 bytes ending in each footer combination (only the 16-byte form is a short packet).",
         assumptions: &["the reference decoder (harness/src/refs.rs::adc_ref) transcribes the property statement correctly", "the independent encoder writes the documented big-endian layout"],
         profiles: both,
         shards: shards16,
